@@ -159,6 +159,7 @@ type Scenario struct {
 	Lookups map[string]AVal // access path of a map lookup ("rates[tx.Conversion]")
 	Lens    map[string]AVal // len(path)
 	Globals map[string]AVal // overrides "pkg.Name"
+	Phis    map[string]AVal // loop/merge variable by source name (Phi.Comment), e.g. induction variable "i"
 	Order   func(a, b AVal) (int, bool)
 	MaxDepth int
 	NoInline map[string]bool // callees never analysed recursively
@@ -431,7 +432,17 @@ func (s *SCCP) binop(x *ssa.BinOp, a, b AVal) AVal {
 		v = roundFloat(v, x.Type())
 		return AVal{K: AConst, C: v}
 	}
-	// x*0, x&0 etc. are not needed
+	// symbolic product sym*const (band edges): a derived symbol the scenario's order oracle can place
+	if x.Op == token.MUL {
+		if a.K == ASym && b.isConst() && isNumKind(b.C) {
+			f, _ := constant.Float64Val(constant.ToFloat(b.C))
+			return sym(fmt.Sprintf("%s*%g", a.Sym, f))
+		}
+		if b.K == ASym && a.isConst() && isNumKind(a.C) {
+			f, _ := constant.Float64Val(constant.ToFloat(a.C))
+			return sym(fmt.Sprintf("%s*%g", b.Sym, f))
+		}
+	}
 	return top
 }
 
@@ -491,6 +502,20 @@ func typePath(v ssa.Value) string {
 		tn := namedShort(x.X.Type())
 		if st != nil && tn != "" {
 			return tn + "." + st.Field(x.Field).Name()
+		}
+	case *ssa.IndexAddr:
+		if tp := typePath(x.X); tp != "" {
+			if k, ok := x.Index.(*ssa.Const); ok {
+				return fmt.Sprintf("%s[%s]", tp, k.Value)
+			}
+			return tp + "[]"
+		}
+	case *ssa.Index:
+		if tp := typePath(x.X); tp != "" {
+			if k, ok := x.Index.(*ssa.Const); ok {
+				return fmt.Sprintf("%s[%s]", tp, k.Value)
+			}
+			return tp + "[]"
 		}
 	case *ssa.Lookup:
 		m := valuePath(x.X)
@@ -589,6 +614,12 @@ func (s *SCCP) run(fn *ssa.Function, args []AVal, depth int) *fnState {
 			for _, ins := range b.Instrs {
 				switch x := ins.(type) {
 				case *ssa.Phi:
+					if pb, ok := s.lookupBinding(s.sc.Phis, fn, x.Comment); ok && x.Comment != "" {
+						if set(x, pb) {
+							changed = true
+						}
+						continue
+					}
 					a := bot
 					for i, e := range x.Edges {
 						if st.execE[[2]int{b.Preds[i].Index, b.Index}] {
@@ -882,7 +913,7 @@ func (s *SCCP) evalCall(st *fnState, x *ssa.Call, get func(ssa.Value) AVal, dept
 		return b
 	}
 	v := s.evalCall1(st, x, get, depth)
-	if s.sc.AllErrorsNil && v.K != ABot {
+	if n := calleeName(cc); s.sc.AllErrorsNil && v.K != ABot && n != "fmt.Errorf" && n != "errors.New" {
 		sig := cc.Signature()
 		if ei := errResultIndex(sig); ei >= 0 {
 			if sig.Results().Len() == 1 {
@@ -1259,7 +1290,7 @@ func (a *tableAcc) run(c *Ctx, r *Report, fn *ssa.Function, sc *Scenario) (*Trac
 
 func (a *tableAcc) absorb(s *SCCP) {
 	a.n++
-	for _, m := range []map[string]AVal{s.sc.Paths, s.sc.Lookups, s.sc.Lens} {
+	for _, m := range []map[string]AVal{s.sc.Paths, s.sc.Lookups, s.sc.Lens, s.sc.Phis} {
 		for k := range m {
 			a.all[k] = true
 			kk := k
